@@ -8,6 +8,7 @@ import pipeline
 import kv
 
 ASSUME12 = [
+    "ctx dup: the connection is busy, the identical call and then a different one are already queued; every call gets a line of its own",
     "TLC decides every recorded SETCONF line with the KvLine grammar (kvline items, QuotedString with C escapes) and proves the "
     "grammar's reference encoder/parser agree over a bounded space; input breadth is enumerated / drawn by the Python driver",
     "round trip is demanded for keys from the config-name alphabet [A-Za-z0-9_]; for other keys only 'one line or an error'",
@@ -27,7 +28,8 @@ ASSUME13 = [
     "some vectors are issued behind an in-flight command whose caller has cancelled its Deferred: Tor still answers that command "
     "first, and the answer must not be taken for the vector's; some GETINFO vectors are issued twice in a row behind a busy connection "
     "(two callers asking the same): both must get the value; some are issued while a multi-line event is half received; some are "
-    "fallbacks, issued from the error handler of a request Tor has just refused",
+    "fallbacks, issued from the error handler of a request Tor has just refused; some follow a completely answered incremental "
+    "(per-line callback) request",
 ]
 CRIT12 = ["a", " ", "\t", '"', "\\", "=", "\r", "\n"]
 CRIT13 = ["a", "=", " ", '"', "'", "2", "5", "0", ".", "O", "K"]
@@ -128,14 +130,14 @@ def run(pid, tier, seed):
         recs = []
         for i, (a, k) in enumerate(vectors12(tier, seed)):
             # invalid keys go through every context, the others rotate
-            for ctx in (["idle", "repeat", "queued"] if not k else ["queued" if i % 3 == 2 else "repeat" if i % 3 == 1 else "idle"]):
+            for ctx in (["idle", "repeat", "queued", "dup"] if not k else [["idle", "repeat", "queued", "dup"][i % 4]]):
                 recs.append(kv.setconf_vector(a, k, ctx))
         key = lambda r: json.dumps([r["args"], r["ctx"]])
     else:
         rep.assumptions = list(ASSUME13)
         rep.tlc("KvLine_MC (grammar round trip)", tlc.run_tlc("KvLine_MC", "KvLine_MC_quick.cfg", workers=16, timeout=900))
         recs = []
-        noises = ["none"] * 6 + ["%s@%s" % (sh, at) for sh in ("midline", "block", "single") for at in ("before", "during")] + ["cancel@before"] * 2 + ["twin@before"] * 2 + ["split@before"] * 2 + ["fallback@before"] * 2
+        noises = ["none"] * 6 + ["%s@%s" % (sh, at) for sh in ("midline", "block", "single") for at in ("before", "during")] + ["cancel@before"] * 2 + ["twin@before"] * 2 + ["split@before"] * 2 + ["fallback@before"] * 2 + ["incremental@before"] * 2
         for i, v in enumerate(vectors13(tier, seed)):
             noise = rng.choice(noises)
             # every other single-key request goes through the single-value form of the API
